@@ -197,6 +197,8 @@ type Disk struct {
 	FaultOps        int  // faultable ops seen so far
 	NoLog           bool // do not record the op log (engines that only need the volatile view)
 	FaultReads      bool // also count list/load as faultable (OpNote kinds "list","load")
+	FaultFileReads  bool // also count ReadAt on files as faultable
+	FaultPaused     bool // the harness itself is reading (observation): nothing is injected or counted
 }
 
 // NewDisk mounts a durable state.
@@ -332,6 +334,12 @@ func (h *Handle) ReadAt(p []byte, off int64) (int, error) {
 	}
 	if off < 0 {
 		return 0, pathErr("readat", h.Name, errors.New("negative offset"))
+	}
+	if h.d.FaultFileReads && !h.d.FaultPaused {
+		// a failing read transfers nothing
+		if h.d.fault(OpNote) != FaultNone {
+			return 0, pathErr("read", h.Name, ErrInjected)
+		}
 	}
 	if off >= int64(len(h.ino.data)) {
 		if len(p) == 0 {
